@@ -9,16 +9,26 @@ export GOCACHE="${GOCACHE:-$ROOT/work/gocache}"
 ID="${1:?property id}"; TIER="${2:-${VERIF_TIER:-quick}}"; shift; shift || true
 mkdir -p bin work
 cp /repo/go.sum "$ROOT/go.sum" 2>/dev/null || true
-BUILDLOG="work/build-$ID.log"
-if ! go build -o "bin/zogmon-$ID" ./cmd/zogmon >"$BUILDLOG" 2>&1; then
+# Self-test mode (never used by MANIFEST commands): ZOG_REPO=<scratch copy of the repository> builds against that copy through a
+# generated -modfile, VERIF_OUT=<dir> receives evidence / replays / work files, so /repo and /verif stay untouched.
+MODARGS=(); OUT="$ROOT"; BINTAG="$ID"
+if [ -n "${ZOG_REPO:-}" ]; then
+  OUT="${VERIF_OUT:?VERIF_OUT must be set with ZOG_REPO}"; mkdir -p "$OUT"
+  sed "s#=> /repo#=> $ZOG_REPO#" go.mod > "$OUT/go.mod"; cp go.sum "$OUT/go.sum"; cp known_findings.json "$OUT/" 2>/dev/null
+  MODARGS=(-modfile="$OUT/go.mod"); BINTAG="$ID-$(echo "$OUT" | md5sum | cut -c1-10)"
+fi
+BUILDLOG="work/build-$BINTAG.log"
+if ! go build "${MODARGS[@]}" -o "bin/zogmon-$BINTAG" ./cmd/zogmon >"$BUILDLOG" 2>&1; then
   echo "INCONCLUSIVE property=$ID build failed (see $ROOT/$BUILDLOG)"; tail -20 "$BUILDLOG"; exit 2
 fi
 RACEARG=()
 case "$ID" in
   C08)
-    if ! go build -race -o "bin/zogmon-race-$ID" ./cmd/zogmon >>"$BUILDLOG" 2>&1; then
+    if ! go build "${MODARGS[@]}" -race -o "bin/zogmon-race-$BINTAG" ./cmd/zogmon >>"$BUILDLOG" 2>&1; then
       echo "INCONCLUSIVE property=$ID race build failed (see $ROOT/$BUILDLOG)"; tail -20 "$BUILDLOG"; exit 2
     fi
-    RACEARG=(-racebin "$ROOT/bin/zogmon-race-$ID");;
+    RACEARG=(-racebin "$ROOT/bin/zogmon-race-$BINTAG");;
 esac
-exec "bin/zogmon-$ID" -root "$ROOT" -prop "$ID" -tier "$TIER" "${RACEARG[@]}" "$@"
+"bin/zogmon-$BINTAG" -root "$OUT" -prop "$ID" -tier "$TIER" "${RACEARG[@]}" "$@"; CODE=$?
+if [ -n "${ZOG_REPO:-}" ]; then rm -f "bin/zogmon-$BINTAG" "bin/zogmon-race-$BINTAG" "$BUILDLOG"; fi
+exit $CODE
